@@ -10,6 +10,7 @@ from .state import Unsupported, RaiseSig, ReturnSig, PathEnd, BreakSig, Continue
 from .classes import cls_of, issub
 from . import strs
 
+EXT_CONSTS = {'os.pardir': '..', 'os.curdir': '.', 'os.sep': '/', 'os.path.sep': '/', 'os.path.pardir': '..'}
 LIST_METHODS = {'append', 'insert', 'extend', 'pop', 'index', 'count', 'sort', 'remove', 'reverse', 'copy',
                 '__contains__'}
 SET_METHODS = {'add', 'update', 'discard', 'remove', 'union', 'intersection', 'difference', 'copy',
@@ -61,6 +62,8 @@ def getattr_v(I, ctx, fr, v, name, node):
         return r
     if isinstance(v, VExternal):
         d = '%s.%s' % (v.name, name)
+        if d in EXT_CONSTS:
+            return M.const_value(EXT_CONSTS[d])
         if I.classes.has(d):
             return VClass(d)
         return VExternal(d)
@@ -112,6 +115,10 @@ def call(I, ctx, fr, fv, args, kwargs, node, star):
         if star is not None:
             kwargs = dict(kwargs)
             kwargs['__star__'] = star
+        if getattr(ctx, 'no_branch', 0):
+            # spec functions are total: an optional argument stands for its value (the
+            # formula guards the None case itself)
+            args = [a.val if isinstance(a, VOpt) else a for a in args]
         return fv.fn(I, ctx, *args, **kwargs)
     if fr.spec and not isinstance(fv, (VBuiltin, VClass, VMethod, VRepoFunc, VBound)):
         raise Unsupported('call of %r inside a spec expression' % (fv,), node)
@@ -126,6 +133,9 @@ def call(I, ctx, fr, fv, args, kwargs, node, star):
     if isinstance(fv, VBuiltin):
         f = BUILTIN_FUNCS.get(fv.name)
         if f is None:
+            m = I.engine.externals.get('builtins.' + fv.name)
+            if m is not None:
+                return m(I, ctx, *args, **kwargs)
             raise Unsupported('builtin %s' % fv.name, node)
         return f(I, ctx, fr, args, kwargs, node)
     if isinstance(fv, VClass):
